@@ -86,6 +86,28 @@ def run_c11(ck, ctx):
             reqs.append(f'data 1 {m} {w.hex().upper()}'); dmeta.append((idb, m, bytes(w)))
         w = bytes(9) + bytes([idb])
         reqs.append(f'data 0 {0} {w.hex().upper()}'); dmeta.append((idb, None, w))
+    # CLI level: the verdict on a word depends on its 80 bits only, not on what the link has seen before: the SAME reserved bit
+    # set in EVERY status word of one type (a stuck bit; the IHWs of a link are then byte-identical) is reported at every one
+    for kind, kid, byte, bit, code in (('ihw', 0xE0, 5, 0x20, 'E30'), ('tdh', 0xE8, 3, 0x10, 'E40'), ('tdt', 0xF0, 8, 0x04, 'E50'), ('ddw0', 0xE4, 8, 0x04, 'E60')):
+        pk, meta_s = G.conforming_stream(R, nlinks=R.randint(1, 2), min_hbf=3, max_hbf=4, hits=False)
+        pk = [q.clone() for q in pk]
+        want = set(); off = 0
+        for q in pk:
+            if q.raw_payload is None:
+                for k, w in enumerate(q.words):
+                    if w[9] == kid:
+                        ww = bytearray(w); ww[byte] |= bit; q.words[k] = bytes(ww)
+                        want.add((off + 64 + k * q.slot(), code))
+            off += q.size()
+        data = G.encode(pk)
+        for mode in (['check', 'sanity', 'its'], ['check', 'all', 'its']):
+            r = L.run_cli(mode, data)
+            ck.case(('cli_stuck_bit', kind, tuple(mode))); ck.count('cli_stuck_bit_words', len(want))
+            got = {(e[0], e[1]) for e in r.errors}
+            if not want <= got:
+                ck.violation('cli_stuck_bit', {'what': f'the same reserved bit set in every {kind.upper()} of the stream is not reported at every one of them '
+                                                        '(the sanity verdict must depend on the word alone)', 'kind': kind,
+                                               'missing': sorted(want - got)[:10], 'expected': len(want), 'input_hex': data.hex(), 'args': ' '.join(mode)})
     if not ctx['harness_ok']:
         ck.notes.append('C11: harness unavailable, unit correspondence skipped'); return
     impl, model, dis = corr(ck, 'word_sanity', reqs)
